@@ -66,6 +66,7 @@ def _source_loop(ctx: Ctx, op: str):
     fref = f"{SSB}.{op}"
     fn = ctx.repo.func(fref)
     loop = the_loop(ctx, fref, ast.For, lambda l: ast.unparse(l.iter) == "sources", "loop over sources")
+    ctx.require_locals(fref, ["sources", "scopes", "source_scope", "source_params", "source_path", "source_net"])
     return fref, fn, loop
 
 
@@ -256,6 +257,7 @@ def scope_table(ctx: Ctx, rule: str) -> None:
 
 def redownload(ctx: Ctx, rule: str) -> None:
     fref, fn, loop = _source_loop(ctx, "get")
+    ctx.require_locals(fref, ["local_state_exists", "pool_state_exists", "cache_valid"])
     views = loop_iteration_views(ctx, fref, loop, names_interesting({"transport", "_show", "cache_valid"}), pre_steps=_pre_steps(fn.node, loop))
 
     def required(v: PathView, i: int, c: ast.Call):
